@@ -377,6 +377,42 @@ func c07CodeDevicePAR(c *run.Ctx, r *rand.Rand, id string, k c07cfg, w *world.Wo
 			}
 		}
 	}
+	// --- the credential expires while the token request is being processed (between request validation and response)
+	{
+		t0 := time.Now()
+		az := w.Authorize(url.Values{"client_id": {cl}, "response_type": {"code"}, "scope": {"openid offline"}, "state": {"state-0123456789"}, "nonce": {"nonce-0123456789"}, "redirect_uri": {sp.RedirectURIs[0]}}, world.Consent{})
+		dv := w.Device(url.Values{"client_id": {cl}, "scope": {"offline"}}, auth)
+		if dv.Err == nil {
+			_ = w.DeviceDecide(dv.S("user_code"), true, "user-d", nil, false)
+		}
+		type mid struct {
+			kind string
+			life time.Duration
+			form url.Values
+		}
+		mids := []mid{{"authorization_code", codeLife, url.Values{"grant_type": {"authorization_code"}, "code": {az.Params.Get("code")}, "redirect_uri": {sp.RedirectURIs[0]}}}}
+		if dv.Err == nil {
+			mids = append(mids, mid{"device_code", devLife, url.Values{"grant_type": {"urn:ietf:params:oauth:grant-type:device_code"}, "device_code": {dv.S("device_code")}}})
+		}
+		sort.SliceStable(mids, func(a, b int) bool { return mids[a].life < mids[b].life })
+		for _, m := range mids {
+			if m.kind == "authorization_code" && az.Params.Get("code") == "" {
+				continue
+			}
+			if d := t0.Add(m.life - time.Second).Sub(time.Now()); d > 0 {
+				world.Sleep(d)
+			} else if d < 0 {
+				continue
+			}
+			out := w.Token(m.form, auth, func(fosite.AccessRequester) { world.Sleep(2 * time.Second) })
+			hist = append(hist, fmt.Sprintf("%s presented 1s before expiry, response built 1s after => %s", m.kind, world.ErrDetail(out.Err)))
+			c.Case(fmt.Sprintf("%s expires-mid-request accepted=%v", m.kind, out.Err == nil))
+			c.Count("c07_mid_request_expiry", 1)
+			if out.Err == nil && out.S("access_token") != "" {
+				c.Violate(run.Violation{Kind: "alive:expired", Key: "alive:expired " + m.kind + " mid-request", Case: id, Detail: m.kind + " yielded tokens although it had expired by the time the response was built", History: hist})
+			}
+		}
+	}
 	c.Sample(map[string]interface{}{"kind": "code/device/user-code/request_uri", "config": k.String(), "client": cl, "presentations": hist})
 }
 
